@@ -11,6 +11,8 @@ from framework import coqrun  # noqa: E402
 def main():
     for f in sorted((VERIF / 'translator').glob('t*_*.py')):
         m = importlib.import_module('translator.' + f.stem)
+        if not hasattr(m, 'translate'):
+            continue          # helper module of a translator (e.g. t21_expr)
         print(f.stem, m.translate())
     ok, out, secs = coqrun.make([])
     print(out[-3000:])
